@@ -211,6 +211,11 @@ var boundary = [][]string{
 	{"b N0_N1_Y00Y11", "b X00X11l01", "a G00L10P21"},          // link inside A on B's behalf
 	{"b N0_P00", "a N0_P00", "b G00X10l01", "b Z0_P00"}, // B's object points to A's root object
 	{"b r00"},                            // opcode of A only
+	// objects stamped by A stored under B, replaced by same-size ones, re-minted, deleted: A's id
+	// counter must be written back also when A's storage did not change
+	{"b N0_P00", "b N0_P00", "b N0_P10", "b Z0_P10", "b G00P20", "b Z0_P00"},
+	{"b N0_N1_P00P11", "b N0_N1_P11P00", "b N0_P20", "b N1_P31", "b Z0_P20Z0_P30", "b Z0_P00P10"},
+	{"b N0_P00", "b N0_P00", "b N0_P00", "b N0_P10", "b G00P20", "b Z0_P10", "b Z0_P00", "b Z0_P20"},
 }
 
 func emitCase(w *kit.Out, id string, lines []string) {
@@ -258,6 +263,16 @@ func gen(w *kit.Out, r *kit.Rand, tier string) {
 				w.Op("call %d %d ok", seed, rp.Intn(nFuncs))
 			}
 		}
+	}
+	// scripted shapes on a generated program: several finalizations of the realm in one transaction
+	for i, sc := range [][]int{{1, 2}, {1, 3}, {1, 4}, {1, 5}, {6}, {1, 2, 1, 3}} {
+		seed := 424200 + i
+		w.Case(fmt.Sprintf("s%d", i))
+		w.Op("prog %d ok", seed)
+		for _, k := range sc {
+			w.Op("run %d %d ok", seed, k)
+		}
+		w.Op("call %d 0 ok", seed)
 	}
 	// malformed stream
 	rm := r.Fork()
